@@ -152,6 +152,49 @@ def judge(acc, source, spec, model, cls, payload):
         acc.held(cls, key)
 
 
+def history_reparent(acc, source, spec, model, payload):
+    """History on the SAME Feature objects: after the analyses above, the old root is attached under a new
+    root through add_relation, a new FeatureModel is built on it and everything is analysed again."""
+    from flamapy.metamodels.fm_metamodel.models import Feature, Relation, FeatureModel
+    newroot = Feature("NewRoot9", [])
+    sib = Feature("Sibling9", [])
+    newroot.add_relation(Relation(newroot, [model.root], 1, 1))
+    newroot.add_relation(Relation(newroot, [sib], 0, 1))
+    m2 = FeatureModel(newroot, list(model.ctcs))
+    spec2 = {"root": {"name": "NewRoot9", "rels": [{"min": 1, "max": 1, "children": [spec["root"]]},
+                                                   {"min": 0, "max": 1, "children": [{"name": "Sibling9", "rels": []}]}]},
+             "ctcs": spec.get("ctcs", [])}
+    judge(acc, "history:reparented", spec2, m2, "history:reparented", dict(payload, history="reparented under a new root"))
+
+
+def under_decimal_contexts(acc, spec, model, payload):
+    """The operations are functions of the model: the thread's decimal context (precision, traps) must not
+    change a result."""
+    import decimal
+    from flamapy.metamodels.fm_metamodel.operations import FMAverageBranchingFactor, FMMaxDepthTree
+    nch, nb = refdefs.branching(spec)
+    if nb == 0:
+        return
+    base = FMAverageBranchingFactor().execute(model).get_result()
+    for name, setup in (("prec=4", lambda c: setattr(c, "prec", 4)), ("prec=2", lambda c: setattr(c, "prec", 2)),
+                        ("trap-Inexact", lambda c: c.traps.__setitem__(decimal.Inexact, True)),
+                        ("ROUND_UP", lambda c: setattr(c, "rounding", decimal.ROUND_UP))):
+        with decimal.localcontext() as ctx:
+            setup(ctx)
+            try:
+                got = FMAverageBranchingFactor().execute(model).get_result()
+                depth = FMMaxDepthTree().execute(model).get_result()
+            except Exception as e:  # noqa: BLE001
+                acc.fail("environment:decimal-context", "no-exception", "FMAverageBranchingFactor", [],
+                         f"raises:{type(e).__name__}", f"under decimal context {name}: {e}", dict(payload, context=name))
+                return
+        if got != base or depth != refdefs.depth(spec):
+            acc.fail("environment:decimal-context", "matches-definition", "FMAverageBranchingFactor", [], "context-dependent",
+                     f"{got!r} under decimal context {name}, {base!r} by default", dict(payload, context=name))
+            return
+    acc.held("environment:decimal-context", None)
+
+
 def run_case(acc, source, spec, path):
     from flamapy.metamodels.fm_metamodel.transformations import XMLReader
     if path is not None:
@@ -171,6 +214,10 @@ def run_case(acc, source, spec, path):
         acc.sample({"source": source, "path": path, "features": len(S.feature_names(spec)),
                     "spec": spec if len(S.feature_names(spec)) <= 12 else "<large>"})
     judge(acc, source, spec, model, cls, payload)
+    nfeat = len(S.feature_names(spec))
+    if nfeat <= 400 and (path is None or nfeat <= 100) and S.digest(spec)[0] in "0123":
+        under_decimal_contexts(acc, spec, model, payload)
+        history_reparent(acc, source, spec, model, payload)
 
 
 def run_shard(desc, acc):
